@@ -13,7 +13,7 @@ import numpy as np
 
 ID = "C12"
 SHARDS = {"quick": 16, "thorough": 16}
-BUDGET = {"quick": 60, "thorough": 600}
+BUDGET = {"quick": 300, "thorough": 1800}
 EXHAUSTIVE = True
 RULE = ("Vector: all operation sequences of length 1..D (D=3 quick, 4 thorough) "
         "over an alphabet of 18-20 operations (set by attribute / by key / whole "
